@@ -51,6 +51,17 @@ CHECKS = {
             "'a peer contradicting a final value is banned' is read as: by the first refresh that has at least the quorum of proven peers (with fewer, finalize_check_points returns before looking at any vector; DESIGN.md 4 C07)",
         ],
     },
+    "C10": {
+        "trace_module": "Trace_Hostile",
+        "mc": [],
+        "drivers": [{"name": "hostile", "driver": "hostile", "args": [], "trace_module": "Trace_Hostile",
+                     "n": {"quick": 150, "thorough": 2500}, "procs": {"quick": 6, "thorough": 14}}],
+        "assumptions": COMMON_ASSUMPTIONS + [
+            "a panic is observed with catch_unwind around CKBProtocolHandler::received / notify, with overflow checks on (as in the repository's release profile)",
+            "byte strings are generated from honest messages (answers to the currently outstanding requests, earlier traffic, announcements, the client's own requests) by truncation, extension, tag / size / offset rewriting, boundary-value windows and re-sealed headers, plus random bytes; the space of byte strings is sampled, not enumerated",
+            "aborts inside the storage layer caused by disk failures are out of scope",
+        ],
+    },
     "C09": {
         "trace_module": "Trace_FilterSync",
         "mc": [],
